@@ -112,7 +112,7 @@ def long_streams(tier, seed):
     """generated long streams: (name, hs spec, z, body)"""
     rnd = random.Random(seed * 977 + 2)
     out = []
-    count = 24 if tier == 'quick' else 400
+    count = 24 if tier == 'quick' else 1600
     vps = c04.violation_params()
     for idx in range(count):
         kind = idx % 6
@@ -169,6 +169,7 @@ def cases(tier, seed, i, n):
             step = 128
             for lo in range(0, total, step):
                 yield dict(kind='exh', si=si, lo=lo, hi=min(total, lo + step))
+        yield gen.mark('all 2^n cut sets of every curated stream with n<=13')
         # (ii) every single cut and every pair of cuts of the handshake reply (+ frames)
         body = F(1, b'hi') + F(9, b'p')
         hl = c04.HS_LEN[False]
@@ -176,12 +177,13 @@ def cases(tier, seed, i, n):
         yield dict(kind='hs1', body=body)
         for a in range(1, npos):
             yield dict(kind='hs2', body=body, a=a)
+        yield gen.mark('every single cut and every pair of cuts of handshake reply + 2 frames')
         # (iii) bytewise for every stream (short and long), (iv) random cut sets
         for si, st in enumerate(cat):
             yield dict(kind='var', src='cat', si=si, seg='bytewise', cutseed=0)
-            for r in range(3 if tier == 'quick' else 20):
+            for r in range(3 if tier == 'quick' else 200):
                 yield dict(kind='var', src='cat', si=si, seg='random', cutseed=seed * 100 + r)
-        for li in range(24 if tier == 'quick' else 400):
+        for li in range(24 if tier == 'quick' else 1600):
             for r in range(4 if tier == 'quick' else 10):
                 yield dict(kind='var', src='long', li=li, seg='random', cutseed=seed * 1000 + r, seed=seed, tier=tier)
             yield dict(kind='var', src='long', li=li, seg='prefix-bytewise', cutseed=0, seed=seed, tier=tier)
@@ -258,7 +260,6 @@ def run_case(case, acc):
             if compare(acc, dict(kind='one', si=case['si']), st, cuts, 'mask=%#x' % mask):
                 acc.cls('exh/%s/%x' % (st['name'], mask))
             acc.count2('oracle', 'exhaustive_cutsets')
-        acc.exhaustive_done['all 2^n cut sets of every curated stream with n<=13'] = True
     elif k == 'one':
         st = catalogue()[case['si']]
         compare(acc, case, st, case['cuts'], 'replay')
@@ -277,7 +278,6 @@ def run_case(case, acc):
                 if compare(acc, case, st, [a, b], 'cuts %d,%d' % (a, b)):
                     acc.cls('hs2/%d/%d' % (a, b))
                 acc.count2('oracle', 'handshake_cut_pairs')
-        acc.exhaustive_done['every single cut and pair of cuts of handshake reply + 2 frames'] = True
     else:
         st = get_stream(case)
         hl = hs_len_of(st)
